@@ -44,11 +44,13 @@ static std::vector<Tool> tools() {
       // Newton step goes through a linear solve, so thread-dependent summation order is allowed 1e-6 relative
       {"csg_reupdate", BUILD + "/votca/csg/src/tools/csg_reupdate", {"--options", "settings_re.xml", "--top", "topol_cg.xml", "--trj", "trj_re.dump", "--hessian-check", "no"},
        {"CG-CG.param.new", "CG-CG.pot.new"}, false, 1e-6},
+      // csg_stat with a mapping (--cg): every worker maps its own frames; molecules are split by the x face in some frames
+      {"csg_stat-mapped", BUILD + "/votca/csg/src/tools/csg_stat", {"--top", "top.xml", "--trj", "trj_split.dump", "--options", "opt_cg.xml", "--cg", "map.xml"}, {"C-C.dist.new"}, true},
   };
 }
 
 static bool is_input(const std::string &n) {
-  static const char *in[] = {"top.xml", "opt.xml", "trj.dump", "trj.gro", "static.h5", "timedep.h5", "settings_re.xml", "topol_cg.xml", "trj_re.dump", "CG-CG.param.cur", "CG-CG.dist.new", "CG-CG.dist.tgt"};
+  static const char *in[] = {"top.xml", "opt.xml", "trj.dump", "trj.gro", "static.h5", "timedep.h5", "map.xml", "opt_cg.xml", "trj_split.dump", "settings_re.xml", "topol_cg.xml", "trj_re.dump", "CG-CG.param.cur", "CG-CG.dist.new", "CG-CG.dist.tgt"};
   for (const char *i : in) if (n == i) return true;
   return n[0] == '.';
 }
@@ -179,6 +181,33 @@ static bool write_other_formats() {
       double L = 3.0 + 0.1 * fr;
       snprintf(b, sizeof b, "%10.5f%10.5f%10.5f\n", L, L, L);
       f << b;
+    }
+  }
+  {
+    std::ofstream f("map.xml");
+    f << "<cg_molecule>\n <name>MCG</name>\n <ident>M</ident>\n <topology>\n  <cg_beads>\n   <cg_bead>\n    <name>C</name>\n    <type>CG</type>\n    <mapping>com</mapping>\n"
+         "    <beads>1:M:A 1:M:B</beads>\n   </cg_bead>\n  </cg_beads>\n </topology>\n <maps>\n  <map>\n   <name>com</name>\n   <weights>1 2</weights>\n  </map>\n </maps>\n</cg_molecule>\n";
+  }
+  {
+    std::ofstream f("opt_cg.xml");
+    f << "<cg>\n <non-bonded>\n  <name>C-C</name>\n  <type1>CG</type1>\n  <type2>CG</type2>\n  <min>0.0</min>\n  <max>1.2</max>\n  <step>0.1</step>\n </non-bonded>\n</cg>\n";
+  }
+  {
+    // as trj.dump, but bead B sits 1.0+0.1*frame below A in x and is wrapped into the box: molecules 0 and 2 are split by the x face
+    // in the first frames (also in the second frame, which a worker other than the first one maps)
+    std::ofstream f("trj_split.dump");
+    for (int fr = 0; fr < FR; fr++) {
+      double L = 30.0 + fr;
+      f << "ITEM: TIMESTEP\n" << fr << "\nITEM: NUMBER OF ATOMS\n" << 2 * NM << "\nITEM: BOX BOUNDS pp pp pp\n0 " << L << "\n0 " << L << "\n0 " << L
+        << "\nITEM: ATOMS id type x y z\n";
+      for (int m = 0; m < NM; m++) {
+        double x = (m % 2) * 4.0 + fr * 0.7 + m * 0.3 + 0.2, y = (m / 2) * 5.0 + fr * 0.4 + 0.3, z = m * 1.5 + fr * 1.1 + 0.4;
+        double bx = x - (1.0 + 0.1 * fr);
+        if (bx < 0) bx += L;
+        char b[256];
+        snprintf(b, sizeof b, "%d 0 %.4f %.4f %.4f\n%d 1 %.4f %.4f %.4f\n", 2 * m + 1, x, y, z, 2 * m + 2, bx, y + 0.5, z + 0.2 * m);
+        f << b;
+      }
     }
   }
   return h5_write("static.h5", NM, FR, false) && h5_write("timedep.h5", NM, FR, true);
@@ -358,7 +387,7 @@ int main(int argc, char **argv) {
   bool thorough = a.tier == "thorough";
   R.deadline_s = thorough ? 500 : 40;
   std::vector<Cfg> cfgs;
-  for (int tool = 0; tool < (int)T.size(); tool++)
+  for (int tool = 0; tool < 3; tool++)
     for (int nt : {2, 3})
       for (std::string extra : {"", "--nframes 2", "--first-frame 2", "--first-frame 2 --nframes 2", "--nframes 1", "--block-length 2", "--block-length 1 --nframes 3"}) {
         // (--begin is exercised by the ring part only: the lammps dump reader used here does not set a frame time)
@@ -367,7 +396,7 @@ int main(int argc, char **argv) {
         if (!thorough && nt == 3 && extra != "" && extra != "--nframes 2" && extra != "--block-length 2") continue;
         cfgs.push_back({tool, nt, extra});
       }
-  if (thorough) for (int tool = 0; tool < (int)T.size(); tool++) cfgs.push_back({tool, 4, ""});
+  if (thorough) for (int tool = 0; tool < 3; tool++) cfgs.push_back({tool, 4, ""});
   // other trajectory readers: csg_stat on the same frames as gro, H5MD with a static box and H5MD with time-dependent box edges
   // (every worker has its own topology; what a reader sets up once, e.g. a static box, must reach all of them)
   for (std::string trj : {"trj.gro", "static.h5", "timedep.h5"})
@@ -378,6 +407,12 @@ int main(int argc, char **argv) {
         c.trj = trj;
         cfgs.push_back(c);
       }
+  // csg_stat with a mapping
+  for (int nt : {2, 3})
+    for (std::string extra : {"", "--first-frame 2 --nframes 2"}) {
+      if (!thorough && (nt == 3 || extra != "")) continue;
+      cfgs.push_back({3, nt, extra, false});
+    }
   // the instant after every mutex release as an additional scheduling point (bound 1): shows the consequences of an access moved
   // out of a critical section directly, without waiting for the race detector
   for (int tool = 0; tool < 2; tool++)
@@ -387,7 +422,7 @@ int main(int argc, char **argv) {
     }
   R.rule = "the unmodified csg_stat (ordered) and csg_orientcorr (unordered) executables under LD_PRELOAD=libvsched_preload.so on a generated 4-molecule, "
            "4-frame system (box volume differs per frame): all schedules with <= k preemptions (k=1 quick, 2 thorough; scheduling points at thread create/start/exit, "
-           "mutex acquire, join; for nt=2 also with the instant after every mutex release at k=1) for nt in {2,3,(4)} x frame selections, csg_stat also on the same frames as gro / H5MD (static box) / H5MD (time-dependent box) trajectories; oracle: no deadlock/livelock/crash and output files byte-identical (ordered) / equal to 1e-9 "
+           "mutex acquire, join; for nt=2 also with the instant after every mutex release at k=1) for nt in {2,3,(4)} x frame selections, csg_stat also with a mapping (--cg, molecules split by a box face) and on the same frames as gro / H5MD (static box) / H5MD (time-dependent box) trajectories; oracle: no deadlock/livelock/crash and output files byte-identical (ordered) / equal to 1e-9 "
            "relative (unordered) to the single-thread run. distinct_nontrivial = distinct (config, schedule trace) pairs";
   long long unit = 0, schedules = 0, points = 0;
   // Iterated bounds: pass 0 explores EVERY configuration at bound 1; pass 1 re-explores those with a bound >= 2 at their full
